@@ -178,8 +178,11 @@ pub fn traversal_space(tier: Tier, layouts: Lay) -> DocSpace {
     for (name, d) in seeds::all() {
         s.add("seed", format!("seed:{name}"), d, layouts);
     }
-    let depth = if q { 3 } else { 4 };
-    let mut types = gen::chain_types(&gen::TYPE_LEAVES, depth);
+    let depth = if q { 3 } else { 5 };
+    let mut types = gen::chain_types(if q { &gen::TYPE_LEAVES[..] } else { &gen::TYPE_LEAVES[..6] }, depth);
+    if !q {
+        types.extend(gen::chain_types(&gen::TYPE_LEAVES[6..], 4));
+    }
     types.extend(gen::binary_maps(&gen::TYPE_LEAVES));
     let per = 6;
     for pos in 0..4 {
